@@ -14,9 +14,75 @@ def main(tier, seed, replay=None):
         chan_model.correspondence(ck, ok, "C10", tier, replay)
         chan_model.multichannel_queue(ck, tier, replay)
         loss_during_replay(ck, tier, replay)
+        if not replay:
+            gevent_replay(ck, tier)
     except ImportError:
         pass
-    return ck.finish(rule='programs whose initiator side installs a callback with endmarker before, between and after the arrival of the items and of the close (early and late setcallback), ending by normal end of the remote_exec or by a remote error; conversations in which the channel object of the callback is dropped and the peer hands the channel back inside an item (a new object for the same id, kept or dropped) while more items follow; random/PCT schedules with line-level preemption.')
+    return ck.finish(rule='programs whose initiator side installs a callback with endmarker before, between and after the arrival of the items and of the close (early and late setcallback), ending by normal end of the remote_exec or by a remote error; conversations in which the channel object of the callback is dropped and the peer hands the channel back inside an item (a new object for the same id, kept or dropped) while more items follow; random/PCT schedules with line-level preemption; a real gevent worker whose yielding callback replays queued items while more arrive.')
+
+
+W_GEVENT_REPLAY = """
+import gevent
+got = []
+def cb(x):
+    got.append(x)
+    gevent.sleep(0.08)                    # the callback yields to the hub: the receiver greenlet may run meanwhile
+data = channel.receive()                  # the channel whose items are handed over
+channel.receive()                         # "queued": %(k)d items lie in its queue now
+data.setcallback(cb, endmarker="END")     # replays the queued items, %(k)d * 0.08 s; more items arrive during that time
+deadline = 200
+while "END" not in got and deadline:
+    gevent.sleep(0.05)
+    deadline -= 1
+channel.send(got)
+"""
+
+
+def gevent_replay(ck, tier):
+    """a REAL worker in the gevent execution model: setcallback replays queued items through a callback that yields to the hub while
+    further items arrive -- the receive lock has to hold the receiver greenlet off until the hand-over is complete"""
+    import time
+
+    import execnet
+    from props import xport as X
+
+    try:
+        import gevent  # noqa
+    except ImportError:
+        ck.count("gevent_not_installed")
+        return
+    for k, later in ((3, 2), (5, 3)) if tier == "quick" else ((1, 1), (3, 2), (5, 3), (8, 5), (4, 0)):
+        ex = {"queued": k, "sent_during_replay": later}
+        ck.case(("gevent-replay", k, later), nontrivial=True)
+        ck.count("gevent_replay_runs")
+        st, gw = X.with_timeout(lambda: execnet.makegateway("popen//execmodel=gevent"), 40)
+        if st != "ok":
+            ck.broke("correspondence", "gevent-worker-does-not-start", repr(gw)[:200])
+            return
+        try:
+            ch = gw.remote_exec(W_GEVENT_REPLAY % {"k": k})
+            data = gw.newchannel()
+            ch.send(data)
+            for i in range(k):
+                data.send(i)
+            time.sleep(0.3)
+            ch.send("queued")
+            time.sleep(0.1)                       # the replay is under way (k * 0.08 s)
+            for i in range(k, k + later):
+                data.send(i)
+                time.sleep(0.02)
+            time.sleep(0.08 * k + 0.3)
+            data.send("stop")
+            data.close()
+            got = ch.receive(30)
+            want = list(range(k + later)) + ["stop", "END"]
+            if got != want:
+                ck.fail("callback-items-differ:gevent-worker-replay", {**ex, "got": repr(got)[:200]})
+        except Exception as e:  # noqa
+            ck.fail("callback-items-differ:gevent-worker-replay:" + type(e).__name__, {**ex, "error": repr(e)[:200]})
+        finally:
+            gw.exit()
+            X.with_timeout(lambda: gw.join(5), 10)
 
 
 def loss_during_replay(ck, tier, replay=None):
